@@ -3,6 +3,7 @@ package c16
 
 import (
 	"context"
+	"encoding/json"
 	"errors"
 	"fmt"
 	"net/http"
@@ -173,6 +174,25 @@ func setResponder(l *fedlab.Lab, h headerCase, class string) {
 			return 200, body
 		}
 		switch class {
+		case "entities-empty", "entities-short":
+			// an error-free 200 whose _entities list does not line up with the
+			// representations: "not found" as an empty list / a batch one short
+			var m map[string]any
+			if json.Unmarshal(body, &m) != nil {
+				return 200, body
+			}
+			d, _ := m["data"].(map[string]any)
+			ents, _ := d["_entities"].([]any)
+			if d == nil || len(ents) == 0 {
+				return 200, body
+			}
+			if class == "entities-empty" {
+				d["_entities"] = []any{}
+			} else {
+				d["_entities"] = ents[:len(ents)-1]
+			}
+			nb, _ := json.Marshal(m)
+			return 200, nb
 		case "http500":
 			return 500, body
 		case "errors":
@@ -219,6 +239,24 @@ func runHistory(ls *labs, hist []step, fault string, faultAt int) (string, []fai
 				cache.mu.Lock()
 				for k, it := range cache.m {
 					it.TTL = 0
+					cache.m[k] = it
+				}
+				cache.mu.Unlock()
+			case "lose-one-value", "lose-all-values":
+				// the entry is still there and not expired, but its bytes were lost: the
+				// cache hands out a zero-length value (no error)
+				cache.mu.Lock()
+				keys := make([]string, 0, len(cache.m))
+				for k := range cache.m {
+					keys = append(keys, k)
+				}
+				sort.Strings(keys)
+				for i, k := range keys {
+					if i > 0 && fault == "lose-one-value" {
+						break
+					}
+					it := cache.m[k]
+					it.Value = nil
 					cache.m[k] = it
 				}
 				cache.mu.Unlock()
@@ -323,8 +361,8 @@ func TestCheck(t *testing.T) {
 	n := vk.Pick(run, 2, 3)
 	run.Bound("history_length", n)
 	menu := headerMenu()
-	classes := []string{"clean", "errors", "http500"}
-	faults := []string{"", "get-error", "set-error", "drop-one-key", "expire-all"}
+	classes := []string{"clean", "errors", "http500", "entities-empty", "entities-short"}
+	faults := []string{"", "get-error", "set-error", "drop-one-key", "expire-all", "lose-one-value", "lose-all-values"}
 	var rin *struct {
 		Hist    []step `json:"hist"`
 		Fault   string `json:"fault"`
